@@ -116,7 +116,7 @@ Section WriteSession.
         end
     end.
   Proof.
-    intros Hs Ht. unfold writer_iadd, scheme_missing, with_out. rewrite Hs, Ht. cbn [negb].
+    intros Hs Ht. unfold writer_iadd, scheme_missing, with_out. rewrite Hs, Ht. cbn [negb andb].
     cbn [w_header w_scheme w_mode w_out]. rewrite app_nil_r. reflexivity.
   Qed.
 
@@ -128,13 +128,23 @@ Section WriteSession.
      the column line, and then proceeds as a writer that has that scheme *)
   Lemma iadd_no_scheme (w : writer) (r : mrec) :
     w_scheme w = None ->
+    names_writable (record_names r) = true ->
     let s := no_restrictions (record_names r) in
     s_truthy s = true ->
     writer_iadd sem w r = writer_iadd sem (with_out w s (w_out w ++ [join [TAB] (s_names s)])) r.
   Proof.
-    intros Hs s Ht. rewrite (iadd_with_scheme (with_out w s _) s r eq_refl Ht).
-    unfold writer_iadd, scheme_missing. rewrite Hs. fold (record_names r). fold s.
+    intros Hs Hw s Ht. rewrite (iadd_with_scheme (with_out w s _) s r eq_refl Ht).
+    unfold writer_iadd, scheme_missing. rewrite Hs. fold (record_names r). fold s. rewrite Hw. cbn [negb andb].
     unfold with_out. cbn [w_header w_scheme w_mode w_out]. reflexivity.
+  Qed.
+
+  (* ... unless the format cannot carry the record's column names: the writer
+     refuses with ValueError before anything is written (repaired code) *)
+  Lemma iadd_refused (w : writer) (r : mrec) :
+    w_scheme w = None -> names_writable (record_names r) = false ->
+    writer_iadd sem w r = ([], w, Raise ValueError).
+  Proof.
+    intros Hs Hw. unfold writer_iadd, scheme_missing. rewrite Hs. fold (record_names r). now rewrite Hw.
   Qed.
 
   Lemma with_out_scheme w s out : w_scheme (with_out w s out) = Some s.
